@@ -348,7 +348,7 @@ func dispatch(reqT, respT [256]string) {
 func framing(structs []smbgen.Struct) {
 	for _, s := range structs {
 		rels := smbgen.Relations(s.Name)
-		nIter := r.Pick(12, 200)
+		nIter := r.Pick(12, 1500)
 		for it := 0; it < nIter; it++ {
 			rng := r.Rand(fmt.Sprintf("framing|%s|%d", s.Name, it))
 			mode := smbgen.ModeRandom
